@@ -4,8 +4,16 @@ import sys, os, itertools
 sys.path.insert(0, os.path.join(os.path.dirname(os.path.abspath(__file__)), '..', '..', 'engine'))
 from e2 import *
 HERE = os.path.dirname(os.path.abspath(__file__))
-LIB = ['src/library/log/files/policy_base.cpp', 'src/library/log/files/counted.cpp', 'src/library/log/files/max_size.cpp', 'src/library/log/filename/builder.cpp', 'src/library/log/filename/creator.cpp',
-       'src/library/log/detail/log_msg.cpp', 'src/library/log/log_attributes.cpp', 'src/library/common/file_operations.cpp', 'src/library/common/detail/file_funcs_os.cpp', 'src/library/common/extract_funcname.cpp', 'src/library/common/exception_base.cpp', 'src/library/log/detail/log_attributes_container.cpp']
+def _lib():
+    import glob
+    out = []
+    for p in ['src/library/log/*.cpp', 'src/library/log/detail/*.cpp', 'src/library/log/filter/*.cpp', 'src/library/log/filter/detail/*.cpp', 'src/library/log/formatting/*.cpp',
+              'src/library/log/filename/*.cpp', 'src/library/log/files/*.cpp', 'src/library/common/*.cpp', 'src/library/common/detail/*.cpp', 'src/library/format/*.cpp', 'src/library/format/detail/*.cpp']:
+        out += sorted(glob.glob(os.path.join(REPO, p)))
+    return [os.path.relpath(f, REPO) for f in out if not f.endswith('print_version_info.cpp') and not f.endswith('add_log_standard_args.cpp')]
+
+
+LIB = _lib()
 
 
 def main(tier, only=None):
@@ -24,6 +32,13 @@ def main(tier, only=None):
                 continue
             code = sum((1 if c == 'w' else 2) << (2 * i) for i, c in enumerate(h))
             shapes.append(('hx_files', [pol, lim, gens, code], '%s/limit%d/gens%d/%s' % ('counted' if pol == 0 else 'maxsize', lim, gens, h)))
+    # the same through files::Handler< Policy>::message() (formatting into a stream first)
+    for (pol, lim, gens) in ((0, 2, 2), (1, 6, 2)) if tier == 'quick' else ((0, 1, 2), (0, 2, 2), (0, 3, 3), (1, 4, 2), (1, 6, 3), (1, 12, 3)):
+        for h in hists:
+            if tier == 'quick' and (len(h) > 3 and h not in ('wwww', 'wwrw', 'wrww')):
+                continue
+            code = sum((1 if c == 'w' else 2) << (2 * i) for i, c in enumerate(h))
+            shapes.append(('hx_files', [pol | 2, lim, gens, code], 'handler/%s/limit%d/gens%d/%s' % ('counted' if pol == 0 else 'maxsize', lim, gens, h)))
     # older generations already on disk, restart, then further rolls: histories of length 5-6 with one restart for the smallest limits
     for (pol, lim, gens) in ((0, 1, 3), (0, 1, 2), (1, 4, 3), (0, 2, 3)):
         for n in (5, 6):
